@@ -96,8 +96,9 @@ def run(chk, tier):
     for m in ("lt", "le", "gt", "ge"):
         b0 = F.body(CV + m)
         calls = {}
-        for b in common.with_closures(F, b0):
-            calls.update(common.callees_of(b))
+        for b in common.with_private_callees(F, b0):
+            for c_, n_ in common.callees_of(b).items():
+                calls[c_] = calls.get(c_, 0) + n_
         n_ord = sum(n for c, n in calls.items() if c == CV + "ord")
         other = [c for c in calls if re.search(r"partial_cmp|::cmp$|CelValueDyn>::eq|CelValue::(lt|le|gt|ge|neq)$", c)]
         if n_ord == 1 and not other:
@@ -128,13 +129,7 @@ def run(chk, tier):
         chk.ok("R04.4", "sort|comparator=ord")
     else:
         chk.bad("R04.4", "sort|comparator=ord", "sort's comparator closure does not (only) call CelValue::ord", "")
-    for fn, want, other in (("min_impl", "lt", ("le", "gt", "ge")), ("max_impl", "gt", ("ge", "lt", "le"))):
-        b = F.body("rscel::context::default_funcs::" + fn)
-        cal = common.callees_of(b)
-        if cal.get(CV + want, 0) == 1 and not any(cal.get(CV + o) for o in other):
-            chk.ok("R04.4", fn, "calls CelValue::%s once" % want)
-        else:
-            chk.bad("R04.4", fn, "%s must compare with strict `%s` only (first extreme kept); calls: %s" % (fn, want, [lib.short(c) for c in cal if c.startswith(CV)]), b.file)
+    # (min / max: decided exactly by the tables of R04.9)
     # ---------------- decision tables by symbolic execution
     import symex, semtables, collections, itertools
     CVT = "rscel::types::cel_value::CelValue"
@@ -267,6 +262,15 @@ def run(chk, tier):
                     continue
                 feasible = True
                 for c in st.cond:
+                    # the ordering may also be taken apart by matching: Some / None of ord's payload, then the Ordering variant
+                    if c[0] == "variant" and str(c[3]) == "o.Ok.0" and c[2] in ("Some", "None"):
+                        if (c[2] == "None") != (w == "None"):
+                            feasible = False
+                    if c[0] == "variant" and str(c[3]) == "o.Ok.0.Some.0" and c[2] in ("Less", "Equal", "Greater"):
+                        if c[2] != w:
+                            feasible = False
+                    if c[0] == "variant-not" and str(c[3]) == "o.Ok.0.Some.0" and w in c[2]:
+                        feasible = False
                     if c[0] in ("eq", "ne") and isinstance(c[1], str):
                         mm = PRED.match(c[1])
                         if mm:
